@@ -401,7 +401,7 @@ impl Prop for C08 {
     }
     fn rule(&self, tier: Tier) -> String {
         format!(
-            "constant TIRs compiled directly: all injective assignments of a 5-ref pool (txid order != index order) to 1..4 script inputs of 1 or 2 \
+            "constant TIRs compiled directly: all injective assignments of a 5-ref pool (txid order != index order) to 0..4 script inputs of 1 or 2 \
              UTxOs (both iteration orders of every 2-UTxO set), all sequences of 0..3 mints/burns over 3 policies each with or without a redeemer, all sequences of 0..2 withdrawals \
              over 3 reward accounts (key and script headers, ordered differently by bare credential), sequences that mint and burn one policy also with both sides cancelling, with / without an extra redeemer-less input; {}; every redeemer's data also written as a constructor application of alternative 0/6/7/8/127/128/1000 and as a list (8 shapes x 8 item configurations). Oracle: decoded witness-set map (tag, index) -> data = map built \
              from the source items sorted as the ledger sorts (inputs by (txid, index), policies and reward accounts bytewise). Non-trivial = compiled \
@@ -454,6 +454,28 @@ impl Prop for C08 {
             }
         };
         let _ = factorial(1);
+        // no script input at all (one plain input pays): the redeemers of the mints and withdrawals are the only ones
+        {
+            let none: Vec<Vec<usize>> = vec![];
+            if tier.is_thorough() {
+                for m in &mints {
+                    for w in &wds {
+                        emit(&none, m, w, true);
+                    }
+                }
+            } else {
+                for m in &mints {
+                    for w in [vec![], vec![2, 0]] {
+                        emit(&none, m, &w, true);
+                    }
+                }
+                for w in &wds {
+                    for m in [vec![], vec![(false, 1, true)], vec![(false, 2, false)], vec![(true, 0, false), (false, 2, true)]] {
+                        emit(&none, &m, w, true);
+                    }
+                }
+            }
+        }
         if tier.is_thorough() {
             for i in &ins {
                 for m in &mints {
